@@ -167,7 +167,10 @@ impl<T: Serialize> Serialize for Vec<T> {
     fn deserialize(bytes: &[u8]) -> Result<Self, DbError> {
         let len = usize::deserialize(bytes)?;
         let mut begin = len.serialized_size() as usize;
-        let mut vec = Self::with_capacity(len);
+        // The length prefix is untrusted: reserve at most one element per
+        // remaining byte so that a corrupt prefix cannot request an enormous
+        // allocation (or overflow the capacity) before any element is read.
+        let mut vec = Self::with_capacity(std::cmp::min(len, bytes.len()));
 
         for _ in 0..len {
             let value = T::deserialize(&bytes[begin..]).map_err(|_| {
